@@ -110,6 +110,7 @@ def _run_case(rng, res, idx, maxlen):
             s.p.step()
             R = s.grads()
             exp, nu, V, refreshed = s.ref.step(D)
+            _ = (s.p.lr, s.p.kl_clip, s.p.damping, s.p.factor_decay, s.p.factor_update_steps, s.p.inv_update_steps)   # logging reads between steps
             no_sched_until_step = False
             T += 1
             res.count('step_checks')
